@@ -1,5 +1,5 @@
 //! C18 — Local uses the zone the environment names, and notices changes.
-//! Shape H: every event history up to a length bound over a 15-event menu, executed on the real `Local`
+//! Shape H: every event history up to a length bound over a 16-event menu, executed on the real `Local`
 //! (public API) with the guarded mock clock; `TZ` is process-global, so histories are split over child processes.
 use chrono::offset::verif::set_mock_now;
 use chrono::{Local, MappedLocalTime, NaiveDateTime, Offset, TimeZone};
@@ -101,6 +101,7 @@ fn build_env(work: &std::path::Path, create: bool) -> Env {
         (Some("Europe/Paris".into()), paris.clone(), FILEZ),
         (Some(":Europe/Paris".into()), paris.clone(), FILEZ),
         (Some("AAA-3".into()), rule("AAA-3"), RULEZ),
+        (Some(":AAA-3".into()), sys.clone(), FALLBACK), // a colon means "file": no such zoneinfo file, so the system zone
         (Some("AAA4BBB,M3.2.0,M11.1.0".into()), rule("AAA4BBB,M3.2.0,M11.1.0"), RULEZ),
         (Some("!!garbage".into()), sys.clone(), FALLBACK),
         (Some(":/nonexistent/zone".into()), sys.clone(), FALLBACK),
@@ -131,22 +132,22 @@ fn spawn_worker() -> Worker {
     Worker { req: rt, resp: sr }
 }
 
-const NTZ: usize = 10;
-const NEV: usize = 15; // 0..10 set TZ; 10 = +0.4 s; 11 = +1.0 s; 12 = convert on A; 13 = convert on B; 14 = convert on a fresh thread
+const NTZ: usize = 11;
+const NEV: usize = 16; // 0..11 set TZ; 11 = +0.6 s; 12 = +1.0 s; 13 = convert on A; 14 = convert on B; 15 = convert on a fresh thread
 
 fn event_name(env: &Env, e: usize) -> String {
     match e {
-        0..=9 => format!("TZ={:?}", env.tz[e]),
-        10 => "+0.4s".into(),
-        11 => "+1.0s".into(),
-        12 => "convert@A".into(),
-        13 => "convert@B".into(),
+        0..=10 => format!("TZ={:?}", env.tz[e]),
+        11 => "+0.6s".into(),
+        12 => "+1.0s".into(),
+        13 => "convert@A".into(),
+        14 => "convert@B".into(),
         _ => "convert@fresh".into(),
     }
 }
 
 /// run one history from scratch on fresh worker threads; the reference is evaluated alongside
-fn run_history(acc: &mut Acc, env: &Env, hist: &[usize], base_ns: u64, initial: usize, real_clock: bool, states: &mut std::collections::BTreeSet<(usize, u8, u8, u8)>) {
+fn run_history(acc: &mut Acc, env: &Env, hist: &[usize], base_ns: u64, initial: usize, primed: bool, real_clock: bool, states: &mut std::collections::BTreeSet<(usize, u8, u8, u8)>) {
     set_tz(&env.tz[initial]);
     let mut now: u64 = 0; // ns since the start of the history
     if !real_clock {
@@ -157,6 +158,13 @@ fn run_history(acc: &mut Acc, env: &Env, hist: &[usize], base_ns: u64, initial: 
     let mut workers: [Option<Worker>; 2] = [None, None];
     let mut first_use: [bool; 2] = [true, true];
     let started = Instant::now();
+    if primed {
+        // start from a non-initial state: thread A already holds a cache built under the initial setting
+        let w = workers[0].get_or_insert_with(spawn_worker);
+        let _ = w.req.send(());
+        let _ = w.resp.recv();
+        first_use[0] = false;
+    }
     for (step, &e) in hist.iter().enumerate() {
         acc.transitions += 1;
         if !real_clock {
@@ -165,15 +173,15 @@ fn run_history(acc: &mut Acc, env: &Env, hist: &[usize], base_ns: u64, initial: 
             set_mock_now(Some(base_ns + now));
         }
         match e {
-            0..=9 => {
+            0..=10 => {
                 set_tz(&env.tz[e]);
                 if real_clock {
                     now = started.elapsed().as_nanos() as u64;
                 }
                 changes.push((now as i64, e));
             }
-            10 | 11 => {
-                let d = if e == 10 { 400_000_000 } else { 1_000_000_000 };
+            11 | 12 => {
+                let d = if e == 11 { 600_000_000 } else { 1_000_000_000 };
                 if real_clock {
                     std::thread::sleep(std::time::Duration::from_nanos(d + 30_000_000));
                     now = started.elapsed().as_nanos() as u64;
@@ -185,8 +193,8 @@ fn run_history(acc: &mut Acc, env: &Env, hist: &[usize], base_ns: u64, initial: 
             _ => {
                 let t_before = if real_clock { started.elapsed().as_nanos() as u64 } else { now };
                 let (got, fresh) = match e {
-                    12 | 13 => {
-                        let i = e - 12;
+                    13 | 14 => {
+                        let i = e - 13;
                         let w = workers[i].get_or_insert_with(spawn_worker);
                         let _ = w.req.send(());
                         let r = w.resp.recv().unwrap_or(Err("worker thread died".into()));
@@ -214,7 +222,7 @@ fn run_history(acc: &mut Acc, env: &Env, hist: &[usize], base_ns: u64, initial: 
                 }
                 allowed.sort();
                 allowed.dedup();
-                let call = || format!("history [initial TZ={:?}; {}] step {} ({})", env.tz[initial], hist.iter().map(|x| event_name(env, *x)).collect::<Vec<_>>().join("; "), step, event_name(env, e));
+                let call = || format!("history [initial TZ={:?}{}; {}] step {} ({})", env.tz[initial], if primed { ", thread A already converted once" } else { "" }, hist.iter().map(|x| event_name(env, *x)).collect::<Vec<_>>().join("; "), step, event_name(env, e));
                 match got {
                     Err(p) => acc.violation("conversion:panic", call(), "a conversion".into(), format!("panic: {}", p)),
                     Ok(sig) => {
@@ -232,7 +240,7 @@ fn run_history(acc: &mut Acc, env: &Env, hist: &[usize], base_ns: u64, initial: 
                             if fresh {
                                 acc.hit(FRESH);
                             }
-                            if e == 13 {
+                            if e == 14 {
                                 acc.hit(SECOND);
                             }
                             if allowed.len() > 1 {
@@ -259,7 +267,7 @@ fn run_history(acc: &mut Acc, env: &Env, hist: &[usize], base_ns: u64, initial: 
 fn decode(mut idx: u64, len: usize) -> Vec<usize> {
     // the last event is always a conversion (3 choices), the others range over the whole menu
     let mut h = vec![0usize; len];
-    h[len - 1] = 12 + (idx % 3) as usize;
+    h[len - 1] = 13 + (idx % 3) as usize;
     idx /= 3;
     for k in (0..len - 1).rev() {
         h[k] = (idx % NEV as u64) as usize;
@@ -299,11 +307,11 @@ impl Model for HistModel {
     fn next_state(&self, s: &HistState, a: u8) -> Option<HistState> {
         let mut ev = s.events.clone();
         ev.push(a);
-        let ok = if a >= 12 {
+        let ok = if a >= 13 {
             let h: Vec<usize> = ev.iter().map(|x| *x as usize).collect();
             let mut acc = Acc::new(CLASSES.len(), 0);
             let mut st = std::collections::BTreeSet::new();
-            run_history(&mut acc, &self.env, &h, self.base_ns, 0, false, &mut st);
+            run_history(&mut acc, &self.env, &h, self.base_ns, 0, true, false, &mut st);
             acc.viol_total == 0
         } else {
             true
@@ -350,8 +358,8 @@ fn worker_main(spec_arg: &str, tier: Tier) -> ! {
         while k < total && done < want {
             let idx = (k * 7919) % total;
             let h = decode(idx, 3);
-            if h.iter().any(|e| *e == 11 || *e == 10) && h.iter().any(|e| *e < 10) {
-                run_history(&mut acc, &env, &h, base_ns, 6, true, &mut states);
+            if h.iter().any(|e| *e == 11 || *e == 12) && h.iter().any(|e| *e < 11) {
+                run_history(&mut acc, &env, &h, base_ns, 6, done % 2 == 1, true, &mut states);
                 done += 1;
             }
             k += n;
@@ -363,7 +371,9 @@ fn worker_main(spec_arg: &str, tier: Tier) -> ! {
             while idx < total {
                 let h = decode(idx, len);
                 // two initial settings: unset and a rule zone
-                run_history(&mut acc, &env, &h, base_ns, (idx % 2 * 6) as usize, false, &mut states);
+                for primed in [false, true] {
+                    run_history(&mut acc, &env, &h, base_ns, (idx % 2 * 6) as usize, primed, false, &mut states);
+                }
                 idx += n;
             }
         }
@@ -392,7 +402,7 @@ fn main() {
         property: "C18",
         classes: CLASSES,
         required: &["conversion", "stale_allowed", "reloaded", "fresh_thread", "second_thread", "fallback_zone", "file_zone", "rule_zone", "changed_within_window", "public_clock_replay"],
-        rule: "one process, the real Local through its public API, two persistent worker threads (each with its own thread-local cache) plus fresh-thread conversions; event menu of 15: set TZ to one of 10 values {unset, empty, :/abs/file, /abs/file, zoneinfo-relative name, :name, fixed POSIX rule, alternating POSIX rule, garbage, :/nonexistent}, advance the (guarded, mock) clock by 0.4 s or 1.0 s, convert on thread A / B / a fresh thread (a conversion probes 4 fixed instants in both directions inside one step, so its zone signature is observed); ALL event sequences of length <= k ending in a conversion, from two initial settings, each executed from scratch; oracle: the signature must be exactly that of one zone, namely the zone of a TZ value held at some moment within the last second before the conversion (exactly the current value for a thread's first conversion or when nothing changed for >= 1 s); a decoy file with a zoneinfo-relative name sits in the working directory; a stride of histories is replayed without the clock seam, with real sleeps",
+        rule: "one process, the real Local through its public API, two persistent worker threads (each with its own thread-local cache) plus fresh-thread conversions; event menu of 16: set TZ to one of 11 values {unset, empty, :/abs/file, /abs/file, zoneinfo-relative name, :name, fixed POSIX rule, the same rule behind a colon, alternating POSIX rule, garbage, :/nonexistent}, advance the (guarded, mock) clock by 0.6 s or 1.0 s, convert on thread A / B / a fresh thread (a conversion probes 4 fixed instants in both directions inside one step, so its zone signature is observed); ALL event sequences of length <= k ending in a conversion, from four start states (initial TZ unset / a rule, thread A with or without an existing cache), each executed from scratch; oracle: the signature must be exactly that of one zone, namely the zone of a TZ value held at some moment within the last second before the conversion (exactly the current value for a thread's first conversion or when nothing changed for >= 1 s); a decoy file with a zoneinfo-relative name sits in the working directory; a stride of histories is replayed without the clock seam, with real sleeps",
         assumptions: &["no preemption inside a conversion (getenv/setenv are not interceptable and concurrent use is undefined behaviour)", "the system zone of this sandbox is Etc/UTC, so 'system zone' and the final UTC fallback are observationally equal; private mount namespaces with another /etc/localtime are attempted in the thorough tier and skipped with a note if unshare is refused"],
     };
     let only = replay_unit(&args);
@@ -492,7 +502,7 @@ fn main() {
     acc.samples.push(format!("history: TZ=\"AAA-3\"; convert@A; TZ=\":{}/ZoneA\"; +0.4s; convert@A (old or new zone); +1.0s; convert@A (must be New_York)", work.display()));
     let total: u64 = (1..=maxlen).map(count).sum();
     let extra = Extra {
-        bounds: json!({"event_menu": NEV, "tz_settings": NTZ, "max_history_length": maxlen, "histories": total, "worker_processes": nproc, "initial_settings": 2, "system_zone": std::fs::read_link("/etc/localtime").map(|p| p.display().to_string()).unwrap_or_else(|_| "none".into())}),
+        bounds: json!({"event_menu": NEV, "tz_settings": NTZ, "max_history_length": maxlen, "histories": total, "worker_processes": nproc, "start_states": 4, "system_zone": std::fs::read_link("/etc/localtime").map(|p| p.display().to_string()).unwrap_or_else(|_| "none".into())}),
         exhaustive: true,
         more: vec![("exhaustive_over".into(), json!(format!("all event sequences of length <= {} that end in a conversion", maxlen))), ("second_engine".into(), second), ("system_zone_configurations".into(), json!(ns_note))],
     };
